@@ -9,7 +9,8 @@ CONSTANTS MaxLen,      \* number of steps (a `..X` pair counts as one)
           Scope,       \* "pairs" | "triples"  which alphabet/doc set
           WithFuncs,   \* BOOLEAN: also explore trailing function sequences
           Spellings,   \* "canon" | "all"
-          DocSet       \* "small" | "full"
+          DocSet,      \* "small" | "full"
+          FuncSet      \* "small" | "full"   which trailing function sequences
 
 Scalars == {Null, Bool(TRUE), N1, N2, Sa}
 Inner == {N1, Sa, Null, A0, O0, Arr(<<N1, N2>>), Arr(<<Oa(N1)>>),
@@ -28,7 +29,8 @@ Deep == { Arr(<<Oa(Oa(N1)), Oa(N2)>>),
 InnerQ == {N1, Sa, A0, Oa(N1), Arr(<<N1, N2>>), Oab(N2, N1)}
 InnerP == IF DocSet = "small" THEN InnerQ ELSE Inner
 DocsPairs == Scalars \cup {Arr(s) : s \in SeqsUpTo(InnerP, 2)} \cup ObjsOver(InnerP) \cup Deep
-InnerT == {N1, Sa, A0, O0, Arr(<<N1, N2>>), Oa(N1), Oab(N2, N1), Oa(Arr(<<N1, N2>>))}
+InnerT == IF DocSet = "small" THEN {N1, A0, Arr(<<N1, N2>>), Oa(N1), Oab(N2, N1), Oa(Arr(<<N1, N2>>))}
+          ELSE {N1, Sa, A0, O0, Arr(<<N1, N2>>), Oa(N1), Oab(N2, N1), Oa(Arr(<<N1, N2>>))}
 DocsTriples == {N1} \cup {Arr(s) : s \in SeqsUpTo(InnerT, 2)} \cup {Oab(x, y) : x \in InnerT, y \in InnerT} \cup Deep
 Docs == IF Scope = "pairs" THEN DocsPairs ELSE DocsTriples
 
@@ -47,9 +49,14 @@ Queries == {
   And(NotP(Root(<<Nm(kb)>>)), Exist(Pa)),
   Or(Cmp("!=", Pa, Root(<<Nm(kb)>>)), Exist(Pb)),
   Exist(Cur(<<Flt(Exist(Cur(<<>>)))>>)),
-  Exist(Cur(<<Un(<<Idx(0)>>)>>))
+  Exist(Cur(<<Un(<<Idx(0)>>)>>)),
+  \* functions inside filter operands (names fid / gcnt are reserved for operands)
+  Cmp(">", Path("@", <<>>, <<AF(Fn_gcnt)>>), Lit(N1)),
+  Cmp("==", Path("@", <<Nm(ka)>>, <<FF(Fn_fid)>>), Lit(N1)),
+  Exist(Path("@", <<Wild>>, <<AF(Fn_gcnt), FF(Fn_fid)>>))
 }
-QueriesT == { Exist(Pa), Cmp("==", Pa, Lit(N1)), Cmp("<", Pa, Lit(N2)), Exist(Cur(<<>>)) }
+QueriesT == { Exist(Pa), Cmp("==", Pa, Lit(N1)), Cmp("<", Pa, Lit(N2)), Exist(Cur(<<>>)),
+              Cmp(">", Path("@", <<>>, <<AF(Fn_gcnt)>>), Lit(N1)), Cmp("==", Path("@", <<Nm(ka)>>, <<FF(Fn_fid)>>), Lit(N1)) }
 
 Brackets == { Multi(<<Nm(ka), Nm(kb)>>), Multi(<<Nm(kb), Nm(ka), Nm(ka)>>),
               Multi(<<Wild, Nm(ka)>>), Multi(<<Wild, Wild>>),
@@ -64,9 +71,12 @@ SigmaTriples == {Nm(ka), Nm(kb), Wild, Multi(<<Nm(ka), Nm(kb)>>), Multi(<<Wild, 
 Sigma == IF Scope = "pairs" THEN SigmaPairs ELSE SigmaTriples
 
 F1 == {FF(Fn_f1), FF(Fn_fodd), FF(Fn_ferr), AF(Fn_g1), AF(Fn_gerr)}
-F2 == {FF(Fn_f2), AF(Fn_g2), FF(Fn_fid)}
-FSeqs == {<<x>> : x \in F1} \cup {<<x, y>> : x \in F1, y \in F2}
-         \cup {<<FF(Fn_f1), AF(Fn_g1), FF(Fn_f2)>>, <<AF(Fn_g1), AF(Fn_g2), FF(Fn_f3)>>, <<FF(Fn_fodd), FF(Fn_f2), AF(Fn_gcnt)>>}
+F2 == {FF(Fn_f2), AF(Fn_g2), FF(Fn_f3)}
+FSeqsSmall == { <<FF(Fn_f1)>>, <<AF(Fn_g1)>>, <<FF(Fn_ferr)>>, <<AF(Fn_gerr)>>, <<FF(Fn_fodd), FF(Fn_f2)>>,
+                <<FF(Fn_f1), AF(Fn_g2)>>, <<AF(Fn_g1), FF(Fn_f2)>>, <<FF(Fn_fodd), FF(Fn_f2), AF(Fn_g2)>>, <<AF(Fn_g1), AF(Fn_g2)>> }
+FSeqsFull == {<<x>> : x \in F1} \cup {<<x, y>> : x \in F1, y \in F2}
+         \cup {<<FF(Fn_f1), AF(Fn_g1), FF(Fn_f2)>>, <<AF(Fn_g1), AF(Fn_g2), FF(Fn_f3)>>, <<FF(Fn_fodd), FF(Fn_f2), AF(Fn_g2)>>}
+FSeqs == IF FuncSet = "small" THEN FSeqsSmall ELSE FSeqsFull
 
 AllSp == [q : {39, 34}, brk : BOOLEAN, spc : BOOLEAN, omit : BOOLEAN, plus : BOOLEAN, up : BOOLEAN]
 SpList == IF Spellings = "canon" THEN <<Canon>>
